@@ -40,6 +40,8 @@ type ClientConn struct {
 	Logger *slog.Logger
 
 	mu sync.RWMutex
+
+	writeMu sync.Mutex // serialises writes of whole transactions to Connection
 }
 
 func (cc *ClientConn) FileRoot() string {
